@@ -25,6 +25,9 @@ REQUIRED_THEOREMS = [
     "TapkeeVerif.Tsne.symmetrizeCsr_inbounds",
     "TapkeeVerif.Tsne.symmetrizeCsr_half_sum",
     "TapkeeVerif.Tsne.symmetrizeCsr_symm",
+    "TapkeeVerif.Tsne.symmetrizeCsr_wellformed",
+    "TapkeeVerif.Tsne.symmetrizeCsr_total",
+    "TapkeeVerif.Tsne.run_joint_csr",
     "TapkeeVerif.Tsne.symmetrizeCsr_small_partial",
     "TapkeeVerif.Tsne.gradient_identity",
     "TapkeeVerif.Tsne.zeroMean_centres",
